@@ -135,12 +135,18 @@ class Program:
                 for fn in lst:
                     if normalize_function(fn):
                         self.tempfree.append("%s.%s" % (mn, q))
+                        # substitution can expose idioms (x = np.unique(ids); x.size): normalise again
+                        from .idioms import normalize
+                        from .inline import _relink
+                        fn.body = [normalize(st) for st in fn.body]
+                        _relink(fn, getattr(fn, "_parent", None), m)
 
     def _inline_new_helpers(self):
         """functions that are not in the frozen inventory are transparent: inline them into their callers (sa/inline.py)"""
         from .inline import Inliner, _relink
         inl = Inliner(self)
         self.inlined = []
+        self.absorbed = set()
         if not inl.any_helpers():
             return
         inv = inl.inv
@@ -152,6 +158,25 @@ class Program:
                         fn.body = new.body
                         _relink(fn, getattr(fn, "_parent", None), m)
                         self.inlined.append("%s.%s" % (mn, q))
+        # a helper whose every call site was inlined is analysed in the context of its callers only
+        helpers = {(hm, hq): hf for lst in inl.helpers.values() for hm, hq, hf in lst}
+        remaining = set()
+        for mn, m in self.modules.items():
+            for q, lst in m.all_functions.items():
+                for fn in lst:
+                    for n in ast.walk(fn):
+                        if isinstance(n, ast.Call):
+                            f = n.func
+                            nm = f.id if isinstance(f, ast.Name) else f.attr if isinstance(f, ast.Attribute) else None
+                            if nm in inl.helpers and not ((mn, q) in helpers and q.split(".")[-1] == nm):
+                                remaining.add(nm)
+                        elif isinstance(n, ast.Name) and n.id in inl.helpers and isinstance(n.ctx, ast.Load):
+                            par = getattr(n, "_parent", None)
+                            if not (isinstance(par, ast.Call) and par.func is n):
+                                remaining.add(n.id)   # passed around as a value
+        for (hm, hq), hf in helpers.items():
+            if inl.used.get((hm, hq), 0) > 0 and hq.split(".")[-1] not in remaining:
+                self.absorbed.add((hm, hq))
 
     def module(self, name):
         if name not in self.modules:
@@ -178,4 +203,6 @@ class Program:
     def all_functions(self):
         for mn, m in sorted(self.modules.items()):
             for q, f in sorted(m.functions.items()):
+                if (mn, q) in getattr(self, "absorbed", ()):
+                    continue   # transparent helper, analysed inlined at every one of its call sites
                 yield mn, q, f
